@@ -34,6 +34,12 @@ CLAIMED = {
  "C19": dict(cat="model_checking", design="§4 C19", technique="wallet projection checked by LedgerTrace.tla after every operation",
    text="After every operation: balance = sum of listed unspent slips (limb arithmetic); on reorg-free histories with nothing pending the wallet's unspent set equals the ledger's in-window outputs of the node key.",
    note="wallet-built transactions (create_with_multiple_payments) are covered by the dedicated wallet family (see evidence)"),
+ "C16": dict(cat="model_checking", design="§4 C16", technique="TLA+ spec FetchSched.tla transcribing BlockchainSyncState; TLC exhaustive safety + liveness (weak fairness) on bounded instances; -simulate GEN; exact trace validation of every scheduler call (FetchSchedTrace.tla)",
+   text="The scheduler's state and every branch are transcribed into TLA+ functions (Build/Select/Fetched/Failed/Remove). TLC checks in-flight<=batch, no unsigned underflow, no block in flight twice per peer, retry bound, per-round height order and (under weak fairness) that every queued block is eventually requested, exhaustively for small peer/hash universes including a peer announcing one hash under two ids. Every call of the real scheduler in TLC-generated and random scenarios is compared with the specification's function of the observed pre-state and the invariants are evaluated on every observed state; MaxRetries is bound to the real constant 500 in validation.",
+   note="trusted: TLC, cfg(saito_verif) accessors of BlockchainSyncState, harness sched.rs; liveness is proved on the bounded model only"),
+ "C17": dict(cat="model_checking", design="§4 C17", technique="TLA+ spec Handshake.tla with an active attacker (drop/reorder/replay/redirect, signing oracle of honest nodes); TLC exhaustive to a depth bound + -simulate GEN + named attack schedules replayed on real Network/Peer with real signatures; HandshakeTrace.tla",
+   text="The acceptance precondition (valid signature by K over the challenge stored for this very connection, compatible version, key of a connection never changes) and the no-disturbance predicates are TLA+ operators. TLC explores every attacker schedule up to the bound on the model; schedules are replayed against the real Network/Peer objects with real keys, real challenges read from the node's outbound messages and signatures the attacker can actually obtain; the monitor flags any connection that becomes authenticated without the precondition, an unconsumed challenge, a rejected response that disturbs another connection or the key map, and any handler panic.",
+   note="relay of a genuine signature over this connection's challenge is within the property as stated (DESIGN 3.9a); rate limiting is not exercised (clock advances 1 s per message)"),
 }
 
 def main():
